@@ -894,13 +894,13 @@ pub fn journal(quick: bool) -> Vec<Scenario> {
 
 /// The cross product of small cluster shapes, pre-sending modes, workloads and
 /// a concurrent cancel, each with one loss, one failing task and one joining worker allowed (two
-/// deviations in total), explored to a stated depth (quick: 8 events, thorough: 13). Its purpose is to reach combinations nobody
+/// deviations in total), explored to a stated depth (quick: 8 events, thorough: 12). Its purpose is to reach combinations nobody
 /// thought of when writing the named scenarios above.
 pub fn grid(quick: bool) -> Vec<Scenario> {
     let depth = std::env::var("HQMC_GRID_DEPTH")
         .ok()
         .and_then(|s| s.parse().ok())
-        .unwrap_or(if quick { 8usize } else { 13 });
+        .unwrap_or(if quick { 8usize } else { 12 });
     let workers: Vec<(&str, Vec<WorkerSpec>)> = vec![
         ("1w", vec![w(1)]),
         ("1w+s", vec![w(1), w(1).spare()]),
@@ -936,21 +936,53 @@ pub fn grid(quick: bool) -> Vec<Scenario> {
             ],
         ),
     ];
+    let mut workers = workers;
+    let mut loads = loads;
+    if !quick {
+        // thorough only: a worker with two kinds of resources and two request classes on it, a
+        // graph that names a dependency twice
+        workers.push(("wg", vec![w(1).with("gpus", 1)]));
+        loads.push((
+            "2cls",
+            vec![
+                sub(arr(&[0, 1], 1)),
+                sub(SubmitSpec::array(&[0, 1], RqSpec::only("gpus", "compact", 10_000))),
+            ],
+        ));
+        let dup: &[(u32, &[u32])] = &[(0, &[]), (1, &[0, 0]), (2, &[1, 0])];
+        loads.push(("dup", vec![sub(SubmitSpec::graph(dup, RqSpec::cpus(1)))]));
+    }
+    // what a second client does meanwhile
+    let mut seconds: Vec<(&str, Vec<Req>)> = vec![("", vec![]), ("-c", vec![Req::Cancel(1)])];
+    if !quick {
+        seconds.push(("-c2", vec![Req::Cancel(2)]));
+        seconds.push(("-f", vec![Req::Forget(1), Req::JobInfo]));
+    }
     let mut v = Vec::new();
     for (wn, ws) in &workers {
         for (pn, pf) in &prefills {
             for (ln, load) in &loads {
-                for cancel in [false, true] {
-                    let mut clients = vec![load.clone()];
-                    if cancel {
-                        clients.push(vec![Req::Cancel(1)]);
+                let n_jobs = load.iter().filter(|r| matches!(r, Req::Submit(s) if s.job.is_none())).count();
+                if *ln == "2cls" && *wn != "wg" {
+                    continue; // needs the gpu
+                }
+                for (sn, second) in &seconds {
+                    if *sn == "-c2" && n_jobs < 2 {
+                        continue;
                     }
-                    let name = format!("grid-{wn}-{pn}-{ln}{}", if cancel { "-c" } else { "" });
+                    let mut clients = vec![load.clone()];
+                    if !second.is_empty() {
+                        clients.push(second.clone());
+                    }
+                    let name = format!("grid-{wn}-{pn}-{ln}{sn}");
                     let has_spare = ws.iter().any(|w| !w.initial);
                     let mut sc = Scenario::new(&name, ws.clone(), clients)
                         .budgets(1, 1, if has_spare { 1 } else { 0 }, 2)
                         .depth(depth)
                         .cap(400_000);
+                    if *ln == "cl1" && !quick {
+                        sc = sc.kill_reasons(&["ConnectionLost", "Stopped"]);
+                    }
                     if let Some((r, m)) = pf {
                         sc = sc.prefill(*r, *m);
                     }
